@@ -596,6 +596,76 @@ theorem submitCore_eq_submit (cfg : Cfg) (now : Nat) (s : State) (p : Peer) (m :
     simp only [submit, h, if_false]
     rfl
 
+/-! ### zombie pruning only removes -/
+
+theorem lookup_erase_some {κ α : Type} [DecidableEq κ] {k k' : κ} {v : α} (l : List (κ × α))
+    (h : lookup k (erase k' l) = some v) : lookup k l = some v := by
+  by_cases hk : k = k'
+  · subst hk; rw [lookup_erase_self] at h; cases h
+  · rw [lookup_erase_ne _ hk] at h; exact h
+
+/-- deleting a zombie channel only removes: channels and policies of the result were there before -/
+theorem delZombie_sub (strict fixed : Bool) (g : Graph) (c : Scid) :
+    (∀ c' ci, lookup c' (g.delZombie strict fixed c).chans = some ci → lookup c' g.chans = some ci) ∧
+    (∀ k pol, lookup k (g.delZombie strict fixed c).pols = some pol → lookup k g.pols = some pol) ∧
+    (g.delZombie strict fixed c).nodes = g.nodes := by
+  unfold Graph.delZombie
+  cases hc : lookup c g.chans with
+  | none => exact ⟨fun _ _ h => h, fun _ _ h => h, rfl⟩
+  | some ci =>
+    refine ⟨fun c' ci' h => lookup_erase_some _ h, fun k pol h => ?_, rfl⟩
+    exact lookup_erase_some _ (lookup_erase_some _ h)
+
+/-- `PruneGraphNodes` re-establishes the node invariant -/
+theorem pruneNodes_nodes_are_endpoints (self : Key) (g : Graph) :
+    NodesAreEndpoints self (g.pruneNodes self) := by
+  intro k ni hk
+  have hk' : lookup k (g.nodes.filter
+      (fun kn => (fun k => k == self || endpointOf g.chans k) kn.1)) = some ni := hk
+  obtain ⟨hq, _⟩ := lookup_filter_key (fun k => k == self || endpointOf g.chans k) k ni g.nodes hk'
+  simp only [Bool.or_eq_true, beq_iff_eq] at hq
+  rcases hq with h | h
+  · exact Or.inl h
+  · right
+    unfold endpointOf at h
+    obtain ⟨ch, _, hch⟩ := List.any_eq_true.1 h
+    simp only [Bool.and_eq_true, beq_iff_eq, Bool.or_eq_true] at hch
+    exact ⟨ch.1, ch.2, hch.1, hch.2⟩
+
+theorem foldl_delZombie_sub (strict fixed : Bool) (l : List (Scid × ChanInfo)) :
+    ∀ g : Graph,
+    (∀ c' ci, lookup c' (l.foldl (fun g ch => g.delZombie strict fixed ch.1) g).chans = some ci →
+      lookup c' g.chans = some ci) ∧
+    (∀ k pol, lookup k (l.foldl (fun g ch => g.delZombie strict fixed ch.1) g).pols = some pol →
+      lookup k g.pols = some pol) := by
+  induction l with
+  | nil => intro g; exact ⟨fun _ _ h => h, fun _ _ h => h⟩
+  | cons x xs ih =>
+    intro g
+    simp only [List.foldl]
+    obtain ⟨h1, h2⟩ := ih (g.delZombie strict fixed x.1)
+    obtain ⟨d1, d2, _⟩ := delZombie_sub strict fixed g x.1
+    exact ⟨fun c' ci h => d1 c' ci (h1 c' ci h), fun k pol h => d2 k pol (h2 k pol h)⟩
+
+/-- **`Builder.pruneZombieChans` only removes**: every channel and every policy of the graph after
+    a prune tick was there, unchanged, before it; and the node invariant holds afterwards if it held
+    before. -/
+theorem zombiePrune_only_removes (cfg : Cfg) (strict fixed : Bool) (now : Nat) (g : Graph) :
+    (∀ c ci, lookup c (zombiePrune cfg strict fixed now g).chans = some ci →
+      lookup c g.chans = some ci) ∧
+    (∀ k pol, lookup k (zombiePrune cfg strict fixed now g).pols = some pol →
+      lookup k g.pols = some pol) ∧
+    (NodesAreEndpoints cfg.self g → NodesAreEndpoints cfg.self (zombiePrune cfg strict fixed now g)) := by
+  unfold zombiePrune
+  simp only
+  split
+  · exact ⟨fun _ _ h => h, fun _ _ h => h, fun h => h⟩
+  · obtain ⟨h1, h2⟩ := foldl_delZombie_sub strict fixed
+      (g.chans.filter (fun ch => ch.2.n1 != cfg.self && ch.2.n2 != cfg.self &&
+        inPruneHorizon cfg now g ch.1 && isZombieChan cfg strict now g ch.1)) g
+    exact ⟨fun c ci h => h1 c ci h, fun k pol h => h2 k pol h,
+      fun _ => pruneNodes_nodes_are_endpoints cfg.self _⟩
+
 /-- one elementary transition of the gossip intake: a message going through `submit` (under a
     configuration with the same validation switches), the bookkeeping of a new block (height and
     future-message queue only), or the pruning of a closed channel -/
@@ -605,6 +675,10 @@ inductive Micro (cfg : Cfg) (self : Key) : State → State → Prop where
   | tick (s : State) (h : Nat) (f : List (Nat × (Peer × Msg))) :
       Micro cfg self s { s with height := h, future := f }
   | prune (s : State) (c : Scid) : Micro cfg self s { s with g := s.g.prune self c }
+  | del (s : State) (strict fixed : Bool) (c : Scid) :
+      Micro cfg self s { s with g := (s.g.delZombie strict fixed c).pruneNodes self }
+  | zprune (s : State) (strict fixed : Bool) (now : Nat) :
+      Micro cfg self s { s with g := zombiePrune { cfg with self := self } strict fixed now s.g }
 
 inductive Reach (cfg : Cfg) (self : Key) : State → State → Prop where
   | refl (s : State) : Reach cfg self s s
@@ -622,11 +696,15 @@ inductive Event where
   | msg (now : Nat) (p : Peer) (m : Msg)
   | block (now : Nat) (h : Nat)
   | prune (c : Scid)
+  | del (strict fixed : Bool) (c : Scid)          -- DeleteChannelEdges(strict, markZombie) + PruneGraphNodes
+  | zprune (strict fixed : Bool) (now : Nat)      -- Builder.pruneZombieChans (graph-prune ticker)
 
 def stepEvent (cfg : Cfg) (s : State) : Event → State
   | .msg now p m => (submit cfg now s p m).2.st
   | .block now h => (newBlock cfg now s h).st
   | .prune c => { s with g := s.g.prune cfg.self c }
+  | .del strict fixed c => { s with g := (s.g.delZombie strict fixed c).pruneNodes cfg.self }
+  | .zprune strict fixed now => { s with g := zombiePrune cfg strict fixed now s.g }
 
 def runEvents (cfg : Cfg) : State → List Event → State
   | s, [] => s
@@ -669,6 +747,8 @@ theorem runEvents_reach (cfg : Cfg) (evs : List Event) :
     | msg now p m => exact Reach.step (Reach.refl _) (Micro.msg cfg rfl rfl now s p m)
     | block now h => exact newBlock_reach cfg cfg.self now s h
     | prune c => exact Reach.step (Reach.refl _) (Micro.prune s c)
+    | del strict fixed c => exact Reach.step (Reach.refl _) (Micro.del s strict fixed c)
+    | zprune strict fixed now => exact Reach.step (Reach.refl _) (Micro.zprune s strict fixed now)
 
 /-- pruning keeps exactly the nodes that still are endpoints (or our own node) -/
 theorem prune_nodes_are_endpoints (self : Key) (g : Graph) (c : Scid) :
@@ -699,6 +779,9 @@ theorem reach_nodes_are_endpoints (cfg : Cfg) (self : Key) (s s' : State)
     | msg cfg' _ _ now s1 p m => exact nodes_are_endpoints cfg' self now _ p m ih
     | tick s1 h f => exact ih
     | prune s1 c => exact prune_nodes_are_endpoints self _ c
+    | del s1 strict fixed c => exact pruneNodes_nodes_are_endpoints self _
+    | zprune s1 strict fixed now =>
+      exact (zombiePrune_only_removes { cfg with self := self } strict fixed now _).2.2 ih
 
 theorem events_nodes_are_endpoints (cfg : Cfg) (evs : List Event) (s : State)
     (inv : NodesAreEndpoints cfg.self s.g) : NodesAreEndpoints cfg.self (runEvents cfg s evs).g :=
@@ -733,6 +816,9 @@ theorem reach_chans_authentic (cfg : Cfg) (self : Key) (hav : cfg.assumeValid = 
       · subst hc; rw [lookup_erase_self] at h'; cases h'
       · rw [lookup_erase_ne _ hc] at h'
         exact ih ci h'
+    | del _ strict fixed c' => exact ih ci ((delZombie_sub strict fixed s1.g c').1 c ci h)
+    | zprune _ strict fixed now' =>
+      exact ih ci ((zombiePrune_only_removes { cfg with self := self } strict fixed now' s1.g).1 c ci h)
 
 theorem events_chans_authentic (cfg : Cfg) (hav : cfg.assumeValid = false) (evs : List Event)
     (s : State) (c : Scid) (ci : ChanInfo) (h : lookup c (runEvents cfg s evs).g.chans = some ci) :
